@@ -4,6 +4,7 @@
 mod cycle;
 mod debug;
 mod det;
+mod emit;
 mod ctrlauth;
 mod fb;
 mod format;
@@ -35,6 +36,7 @@ fn main() {
         "ctrlauth-gen" => ctrlauth::gen(rest), "ctrlauth-run" => ctrlauth::run(rest),
         "resource-run" => resource::run(rest),
         "stcore-gen" => stcore::gen(rest),
+        "emit-run" => emit::run(rest),
         "resfault-run" => resfault::run(rest),
         "stfeat" => stfeat::run(rest),
         "stfeat-child" => stfeat::child(rest),
